@@ -82,14 +82,7 @@ package shell_operator
 //@ ghost lastHookErr error
 //@ ghost nSetAdm int
 //@ ghost lastAdmProp interface{}
-//@ package github.com/flant/shell-operator/pkg/hook
-//@ trusted func (*Hook).Run
-//@   requires [rate-limit-token] shell_operator.lastWaitHook == h && shell_operator.lastWaitErr == nil && h != nil
-//@   modifies shell_operator.nRun, shell_operator.ranContexts, shell_operator.lastWaitHook, shell_operator.lastHookResult, shell_operator.lastHookErr
-//@   ghostset shell_operator.nRun := shell_operator.nRun + 1
-//@   ghostset shell_operator.ranContexts := context
-//@   ghostset shell_operator.lastWaitHook := nil
-//@   ensures shell_operator.lastHookResult == result0 && shell_operator.lastHookErr == result1 && (result1 == nil ==> result0 != nil)
+// (the contract of (*Hook).Run is in pkg/hook: its body is verified for C12)
 //@ package github.com/flant/shell-operator/pkg/hook/controller
 //@ trusted func (*HookController).SnapshotsInfo
 //@   modifies nothing
@@ -391,7 +384,7 @@ package shell_operator
 //@ package github.com/flant/shell-operator/pkg/hook
 //@ trusted func (*Manager).GetHook
 //@   modifies nothing
-//@   ensures result != nil && result.Config != nil && result.HookController != nil && result.RateLimiter != nil
+//@   ensures result != nil && result.Config != nil && result.HookController != nil && result.RateLimiter != nil && (result.Config.Version == "v0" || result.Config.Version == "v1")
 //@ package github.com/flant/shell-operator/pkg/hook/controller
 //@ trusted func (*HookController).UnlockKubernetesEventsFor
 //@   modifies shell_operator.nUnlock
